@@ -167,7 +167,7 @@ def gen_result_use(rng) -> str:
     sgn = rng.choice(["", "", "", "", "not not ", "not "])
     for _ in range(rng.choice([1, 1, 2])):
         w = rng.choice(["X", "X", "X", "-X", "X+1", "2*X", "1"])
-        tup = rng.choice(["P", "P", "P,T", "f(P)", "(P,1)", "P+1", "|P|", "", "Q", "1", "X"])
+        tup = rng.choice(["P", "P", "P,T", "f(P)", "(P,1)", "P+1", "P-1", "1+P", "P+T", "P*2", "-P", "|P|", "", "Q", "1", "X"])
         more = rng.choice(["", "", "", ", person(P)", ", not lazy(P)", f", {use}", ", cost(P,C)", ", X > 2"])
         u = rng.random()
         if u < 0.3:
@@ -380,6 +380,12 @@ def make_texts(rng, n_gen, corpus_limit=None):
     if corpus_limit is not None and len(texts) > corpus_limit:
         texts = rng.sample(texts, corpus_limit)
     texts += [("tests", t) for t in TEST_PROGRAMS]
+    # the `all key variables are used in the tuple' test (issue #8) against every shape of tuple term, always present
+    for tup in ("P", "P+1", "P-1", "1+P", "P*2", "-P", "|P|", "f(P)", "(P,1)", "P+Q", "P,Q", "Q"):
+        texts.append(("keys", "{ sel(P,Q,V) } :- skill(P,Q,V). res(P,Q,X) :- slot(P,Q), X = #max { V : sel(P,Q,V) }. "
+                              f"tot(S) :- S = #sum {{ X,{tup} : res(P,Q,X) }}. #minimize {{ X,{tup} : res(P,Q,X) }}."))
+        texts.append(("keys", "{ sel(P,V) } :- skill(P,V). res(P,X) :- person(P), X = #min { V : sel(P,V) }. "
+                              f"tot(S) :- S = #sum {{ X,{tup.replace('Q', 'P')} : res(P,X) }}."))
     minmax_corpus = [t for o, t in harvested if o == "minmax_aggregates"] or [t for _, t in harvested]
     for i in range(n_gen):
         r = rng.random()
